@@ -240,7 +240,13 @@ def monC02 (h : Hist) : Option String :=
           match (Spec.noCacheFields Spec.rfc s.header).find? (fun f =>
               !([sAge, sStatusHeader, sFromCache].contains (canonicalHeaderKey f)) && Header.has x.res.hdr (canonicalHeaderKey f)) with
           | some f => some s!"exchange {ri.n}: field {shw f} named by a qualified no-cache was replayed without validation"
-          | none => none
+          | none =>
+            -- … nor in the trailer section of what is served: a field the origin sent as a trailer field is a field of
+            -- the stored response like the others (the caller reads it from Response.Trailer once the body is read)
+            match (Spec.noCacheFields Spec.rfc s.header).find? (fun f =>
+                (h.trailers.find? (·.1 = ri.n)).any fun t => Header.has t.2 (canonicalHeaderKey f)) with
+            | some f => some s!"exchange {ri.n}: trailer field {shw f} named by a qualified no-cache was replayed without validation"
+            | none => none
       else if (strict || soft) && x.res.kind == "resp" && !servedStored && !isSynth504 x then
         -- then it must be the origin's own answer of this exchange
         match x.token with
